@@ -52,18 +52,19 @@ type interpreter struct {
 	maxSteps int64
 
 	// side tables for modelled std types, keyed by object address
-	onces     map[*value]*onceModel
-	mutexes   map[*value]*mutexModel
-	wgs       map[*value]*wgModel
-	pools     map[*value]*poolModel
-	ctxs      []*ctxModel
-	ro        []roRegion
-	counters  map[string]int
-	nextID    int
-	fnSeen    map[*ssa.Function]bool
-	isolate   bool
-	cellOwner map[*value]int
-	mapOwner  map[*omap]int
+	onces       map[*value]*onceModel
+	mutexes     map[*value]*mutexModel
+	wgs         map[*value]*wgModel
+	pools       map[*value]*poolModel
+	ctxs        []*ctxModel
+	ro          []roRegion
+	counters    map[string]int
+	nextID      int
+	fnSeen      map[*ssa.Function]bool
+	isolate     bool
+	disabledExt map[string]bool
+	cellOwner   map[*value]int
+	mapOwner    map[*omap]int
 }
 
 type deferred struct {
@@ -573,7 +574,7 @@ func callSSA(i *interpreter, caller *frame, callpos token.Pos, fn *ssa.Function,
 		fr.g = i.sched.cur
 	}
 	name := fn.String()
-	if ext := externals[name]; ext != nil {
+	if ext := externals[name]; ext != nil && !i.disabledExt[name] {
 		if i.w.Trace {
 			fmt.Fprintf(os.Stderr, "ext %s\n", name)
 		}
